@@ -1,0 +1,59 @@
+//go:build verif
+
+// Machine-checked contracts for package session_tag (comment-only file; never
+// compiled into the library).  Read by /verif/engine (gvc).
+
+package session_tag
+
+//@ contract ReadSessionTag(bytes []byte) (info SessionTag, remainder []byte, err error)
+//@   ensures @C01 @C03 (err == nil) == (len(bytes) >= 32)
+//@   ensures @C01 @C03 err == nil ==> seqeq(info.value[:], bytes[:32]) && suffix(remainder, bytes, 32)
+//@   ensures @C03 err != nil ==> remainder == nil
+//@   modifies nothing
+
+//@ contract NewSessionTag(data []byte) (sessionTag *SessionTag, remainder []byte, err error)
+//@   ensures @C19 (err == nil) == (len(data) >= 32)
+//@   ensures @C19 err == nil ==> sessionTag != nil && seqeq(sessionTag.value[:], data[:32]) && suffix(remainder, data, 32)
+//@   ensures err != nil ==> sessionTag == nil && remainder == nil
+//@   modifies nothing
+
+//@ contract NewSessionTagFromBytes(data []byte) (st SessionTag, err error)
+//@   ensures @C19 (err == nil) == (len(data) == 32)
+//@   ensures @C19 err == nil ==> seqeq(st.value[:], data)
+//@   modifies nothing
+
+//@ contract (st SessionTag) Bytes() (b []byte)
+//@   ensures @C01 len(b) == 32 && seqeq(b, st.value[:]) && fresh(b)
+//@   modifies nothing
+
+//@ contract ReadECIESSessionTag(data []byte) (st ECIESSessionTag, remainder []byte, err error)
+//@   ensures @C01 @C03 (err == nil) == (len(data) >= 8)
+//@   ensures @C01 @C03 err == nil ==> seqeq(st.value[:], data[:8]) && suffix(remainder, data, 8)
+//@   ensures @C03 err != nil ==> remainder == nil
+//@   modifies nothing
+
+//@ contract NewECIESSessionTag(data []byte) (st *ECIESSessionTag, remainder []byte, err error)
+//@   ensures @C19 (err == nil) == (len(data) >= 8)
+//@   ensures @C19 err == nil ==> st != nil && seqeq(st.value[:], data[:8]) && suffix(remainder, data, 8)
+//@   ensures err != nil ==> st == nil && remainder == nil
+//@   modifies nothing
+
+//@ contract NewECIESSessionTagFromBytes(data []byte) (st ECIESSessionTag, err error)
+//@   ensures @C19 (err == nil) == (len(data) == 8)
+//@   ensures @C19 err == nil ==> seqeq(st.value[:], data)
+//@   modifies nothing
+
+//@ contract (st ECIESSessionTag) Bytes() (b []byte)
+//@   ensures @C01 len(b) == 8 && seqeq(b, st.value[:]) && fresh(b)
+//@   modifies nothing
+
+//@ lemma C01_ReadSessionTags(data []byte) {
+//@   t, rem, err := ReadSessionTag(data)
+//@   if err == nil {
+//@     assert(seqeq(t.Bytes(), data[:len(data)-len(rem)]))
+//@   }
+//@   e, rem2, err2 := ReadECIESSessionTag(data)
+//@   if err2 == nil {
+//@     assert(seqeq(e.Bytes(), data[:len(data)-len(rem2)]))
+//@   }
+//@ }
